@@ -9,9 +9,13 @@ claimed = {
 cluster_text = ("Exhaustive deviation-bounded exploration of the real implementation: real Raft instances (3-5 servers) run under a cooperative "
   "scheduler that owns goroutine scheduling, channel/select choice, time, randomness, network and storage; every departure from the healthy default "
   "schedule (message loss/duplication/reordering/late delivery, timer order, crash at quiescent points and before/after every store operation, store errors, "
-  "early client steps) is enumerated up to the stated bound and the property's oracle is evaluated on every execution.")
+  "a store write that hangs while the rest of the server runs, another ready case of a select, early client steps) is enumerated up to the stated bound and the "
+  "property's oracle is evaluated on every execution. Further units: '<scenario>+inj' = one (thorough: two) unscripted public-API calls or isolations injected at every "
+  "quiescent instant of the scenario; 'fe-*' = three servers with every select/lock/wait of every thread AND early message deliveries as branching points (two environment "
+  "events in flight inside one server); 'stall-deposed3' = a leader whose main loop hangs in a store write while it is superseded.")
 cluster_note = ("Bounded: <=5 servers, <=8 client calls, horizon of a few hundred environment events, deviation bound 1 (quick) / 2 (thorough); coarse mode does not "
-  "interleave threads inside one server between two environment events; harness stores/transport honour the interface contracts; data races out of scope.")
+  "interleave threads inside one server between two environment events except for select choices and the fe-* units (bounded preemptions); a unit that reaches its share of the time "
+  "budget is reported as capped (exhaustive:false); harness stores/transport honour the interface contracts; data races out of scope.")
 tech_cluster = "stateless model checking of the implementation: controlled cooperative scheduler + deviation-bounded DFS over environment decisions"
 tech_enum = "explicit-state / exhaustive small-scope enumeration on the real component against a reference model"
 for pid in ["C01","C02","C03","C08","C10"]:
